@@ -24,6 +24,7 @@
   here; what is a theorem is items 1–3, and the direct search (structure-aware mutation of the corpus,
   targeted walker inputs) is run against the real code on every check.
 -/
+import ZlProofs.Lemmas.Thresholds
 import ZlProofs.Lemmas.Sites
 import ZlModel.Walkers
 import ZlModel.Framework
@@ -320,6 +321,15 @@ theorem removeQuestionMarks_suffix : ∀ (s : List Nat), ∃ pre, s = pre ++ rem
       simp [this]
 
 example : fqdnArg [42, 46, 63, 46, 63, 46, 97] = [97] ∧ fqdnArg [63, 97] = [63, 97] ∧ fqdnArg [42] = [42] ∧ fqdnArg [42, 97, 46] = [42, 97, 46] := by decide
+
+/-- `e_subject_dn_not_printable_characters`: the `bytes = bytes[size:]` re-slice after `utf8.DecodeRune` never
+    leaves the string, for every attribute value (1 ≤ size ≤ len for non-empty input — `decodeRune_size`), and
+    the walk ends -/
+theorem dn_printable_walk_total (values : List (List Nat)) : Zl.Thresholds.dnNotPrintable values ≠ .panic :=
+  Zl.Thresholds.dnNotPrintable_total values
+
+example : Zl.Thresholds.dnNotPrintable [[0x41, 0xC2], [0x42]] = .pass ∧ Zl.Thresholds.dnNotPrintable [[0x41], [0x1F]] = .error
+    ∧ Zl.Thresholds.dnNotPrintable [[0xC2, 0x85]] = .error ∧ Zl.Thresholds.dnNotPrintable [[0xE2, 0x82, 0xAC]] = .pass := by decide
 
 /-- `reversedLabelsToIPv6` (32 labels, four per step, counting down): every index it touches is in range -/
 theorem v6_indices_in_range : (v6AllIndices 32).all (fun i => decide (0 ≤ i) && decide (i < 32)) = true := by decide
